@@ -304,7 +304,11 @@ def cfg_sweep(r, focus):
     if focus == 'C05':
         return [dict(la=r.choice([0, 1, 2]), one=o, cost=r.choice([0, 1]), rec=0) for o in (0, 1)]
     if focus == 'C06':
-        return [dict(la=la, one=1, cost=0, rec=0) for la in (0, 1, 2)]
+        return [dict(la=la, one=1, cost=0, rec=0) for la in r.sample([0, 1, 2], 2)] + \
+               [dict(la=r.choice([0, 1, 2]), one=1, cost=0, rec=1, match=m) for m in r.sample([1, 2, 3, 4, 5], 2)]
+    if focus in ('C07', 'C08'):
+        return [dict(la=r.choice([0, 1, 2]), one=r.choice([0, 1]), cost=r.choice([0, 0, 0, 1]), rec=1, match=m)
+                for m in r.sample([1, 2, 3, 3, 4, 5], 3)]
     if focus == 'C09':
         return [dict(la=la, one=one, cost=cost, rec=0, debug=0) for la in (-3, 0, 1, 2, 7)] + \
                [dict(la=r.choice([0, 1, 2]), one=one, cost=cost, rec=0, debug=d) for d in r.sample([1, 2, 3, 4, 5, 6, -1], 2)]
@@ -315,7 +319,7 @@ def gen_parse_cases(seed, count, focus='C01', maxlen=7, inputs_per=3):
     r = random.Random(seed)
     cases = []
     for i in range(count):
-        g = gen_grammar(r, err_prob=0.15 if focus not in ('C06',) else 0.35)
+        g = gen_grammar(r, err_prob=0.15 if focus not in ('C06', 'C07', 'C08') else 0.6)
         ins = gen_inputs(r, g, inputs_per, maxlen)
         # every input gets its own sweep
         lines = None
